@@ -269,4 +269,57 @@ theorem dec_deWitStack (s : WitStack) (h : WFWitStack s) : Dec deWitStack (witSt
     (fun b hb => dec_deBytes b (h.2 b hb))
   simpa using this
 
+/-! ### the closure properties at the level of `Sound` codecs (DESIGN §5) -/
+
+/-- result mapping: the parser post-processes its value -/
+theorem Dec.map {α β : Type} {d : Parser α} {e : Bytes} {a : α} (g : α → β) (h : Dec d e a) :
+    Dec (fun s => d s >>= fun (x, r) => (Except.ok (g x, r) : Res (β × Bytes))) e (g a) :=
+  Dec.bind_last h (fun _ => rfl)
+
+/-- sequencing of two sound codecs -/
+theorem Sound.seq {α β : Type} {encA : α → Bytes} {decA : Parser α} {WFA : α → Prop}
+    {encB : β → Bytes} {decB : Parser β} {WFB : β → Prop}
+    (hA : Sound encA decA WFA) (hB : Sound encB decB WFB) :
+    Sound (fun (p : α × β) => encA p.1 ++ encB p.2)
+      (fun s => decA s >>= fun (a, r) => decB r >>= fun (b, r') => (Except.ok ((a, b), r') : Res ((α × β) × Bytes)))
+      (fun p => WFA p.1 ∧ WFB p.2) := by
+  rw [sound_iff] at *
+  rintro ⟨a, b⟩ ⟨wa, wb⟩
+  exact Dec.bind (hA a wa) (Dec.bind_last (hB b wb) (fun _ => rfl))
+
+/-- map along a bijection (`g ∘ f = id` on the well-formed values suffices) -/
+theorem Sound.map {α β : Type} {enc : α → Bytes} {dec : Parser α} {WF : α → Prop}
+    (f : β → α) (g : α → β) (hgf : ∀ b, g (f b) = b) (h : Sound enc dec WF) :
+    Sound (fun b => enc (f b))
+      (fun s => dec s >>= fun (x, r) => (Except.ok (g x, r) : Res (β × Bytes))) (fun b => WF (f b)) := by
+  rw [sound_iff] at *
+  intro b wb
+  have := Dec.map g (h (f b) wb)
+  rwa [hgf] at this
+
+theorem sound_readU (w : Nat) (h8 : w ≤ 8) : Sound (leBytes w) (readU w) (fun n => n < 256 ^ w) :=
+  (sound_iff _ _ _).2 (fun n hn => dec_readU w n h8 hn)
+
+theorem sound_readI4 : Sound (leBytesInt 4) (readI 4) (fun i => -(2 ^ 31 : Int) ≤ i ∧ i < 2 ^ 31) :=
+  (sound_iff _ _ _).2 (fun i hi => dec_readI4 i hi.1 hi.2)
+
+theorem sound_readI8 : Sound (leBytesInt 8) (readI 8) (fun i => -(2 ^ 63 : Int) ≤ i ∧ i < 2 ^ 63) :=
+  (sound_iff _ _ _).2 (fun i hi => dec_readI8 i hi.1 hi.2)
+
+/-- CompactSize: all 2^64 values, every boundary -/
+theorem sound_compactSize : Sound Spec.Wire.compactSize deVarInt (fun n => n < 2 ^ 64) :=
+  (sound_iff _ _ _).2 dec_deVarInt
+
+/-- length-prefixed byte strings, for lengths up to MAX_SIZE (beyond it the guard breaks both clauses) -/
+theorem sound_varBytes : Sound Spec.Wire.varBytes deBytes (fun b => b.length ≤ Spec.Wire.maxSize) :=
+  (sound_iff _ _ _).2 dec_deBytes
+
+/-- count-prefixed vectors of a sound element codec, any count below 2^64 -/
+theorem Sound.vec {α : Type} {enc : α → Bytes} {dec : Parser α} {WF : α → Prop} (h : Sound enc dec WF) :
+    Sound (Spec.Wire.vec enc) (deVector dec) (fun xs => xs.length < 2 ^ 64 ∧ ∀ x ∈ xs, WF x) := by
+  rw [sound_iff] at *
+  rintro xs ⟨hlen, hall⟩
+  have := dec_deVector (g := id) xs hlen (fun x hx => h x (hall x hx))
+  simpa using this
+
 end BtcVerif.Codec
